@@ -1098,6 +1098,7 @@ class Wtp:
 
         # Propagate pre_expand from lower-level templates to all templates that
         # refer to them
+        propagated = {page.title for page in expand_stack}
         while len(expand_stack) > 0:
             page = expand_stack.pop()
             title_no_ns_prefix = page.title.removeprefix(
@@ -1107,9 +1108,14 @@ class Wtp:
                 continue
 
             for template_title in included_map[title_no_ns_prefix]:
-                self.get_page.cache_clear()  # avoid infinite loop
+                if template_title in propagated:
+                    continue
+                # also through templates that carry the flag already (from an
+                # earlier analysis): their includers may have arrived since
+                propagated.add(template_title)
+                self.get_page.cache_clear()
                 template = self.get_page(template_title, template_ns_id)
-                if not template or template.need_pre_expand:
+                if not template:
                     continue
                 # print("propagating EXP {} -> {}".format(name, inc))
                 self.set_template_pre_expand(template.title)
